@@ -204,6 +204,7 @@ variable (r : Nat) (p : Pkt) (op : Option Pkt) (w : Why) (res : Ret)
 @[simp, grind =] theorem whyRank_ctx : whyRank .ctx = 1 := rfl
 @[simp, grind =] theorem whyRank_closed : whyRank .closed = 1 := rfl
 @[simp, grind =] theorem whyRank_txfail : whyRank .txfail = 1 := rfl
+@[simp, grind =] theorem whyRank_txerr : whyRank .txerr = 1 := rfl
 @[simp, grind =] theorem whyRank_resp : whyRank (.resp op) = 1 := rfl
 end
 theorem whyRank_le (w : Why) : 1 ≤ whyRank w ∧ whyRank w ≤ 14 := by cases w <;> simp [whyRank]
@@ -222,7 +223,7 @@ theorem mu_mono (cfg : Cfg) (s s' : State) (l : Label) (i : Nat) (hc : s.closed 
 /-- labels of caller `i`, of the receive loop and of Close's wait -/
 def movesFor (i : Nat) : Label → Bool
   | .rxRead | .rxExit | .rxDrop | .rxPass | .rxLock | .rxDeliver | .rxDoneDrop | .rxUnlock | .closeReturn => true
-  | .lock j | .register j | .refuse j | .transmit j | .transmitFail j | .take j | .accept j | .reject j
+  | .lock j | .register j | .refuse j | .transmit j | .transmitFail j | .transmitErr j | .take j | .accept j | .reject j
   | .giveUp j | .giveUpCtx j | .giveUpClosed j | .cancel1 j | .cancel2 j | .nextTry j | .ret j => j == i
   | _ => false
 
